@@ -11,6 +11,7 @@
 //                                     | <digits> microseconds (std::chrono::microseconds)
 //   of       future.on_finish(callback(T&))            th   future.then(callback(T&) -> int)
 //   rd       future.ready()                            sl<us> usleep (driver level, moves virtual time)
+// wbase=<n> (mode=fut): initial waiter count 2^31 - n (counter about to carry into READY_MASK), n <= 16
 // callback / node identity:  id = thread * 10 + index of the operation in the thread's program (1-based)
 #include <babylon/future.h>
 
@@ -126,13 +127,14 @@ void run_thread(int tid, const std::vector<OpSpec>& ops, const F& base, SetFn&& 
   }
 }
 
-// make the interned tokens of the trace decodable: READY_MASK + k and -(k) as 64 bit
+// make the interned tokens of the trace decodable: READY_MASK + k, READY_MASK - 16 + k and -(k) as 64 bit
 void emit_symbols() {
   static std::atomic<uint32_t> sym32 {0};
   static std::atomic<uint64_t> sym64 {0};
   vsched::name_loc(&sym32, sizeof(sym32), "sym32");
   vsched::name_loc(&sym64, sizeof(sym64), "sym64");
   for (uint32_t k = 0; k < 12; k++) sym32.store(0x80000000u + k, std::memory_order_relaxed);
+  for (uint32_t k = 0; k < 16; k++) sym32.store(0x7FFFFFF0u + k, std::memory_order_relaxed);
   for (uint64_t k = 2; k < 6; k++) sym64.store((uint64_t)0 - k, std::memory_order_relaxed);
 }
 
@@ -161,6 +163,9 @@ void scenario_fut(const vrun::Params& p) {
     F base = promise.get_future();
     auto* ctx = promise._context.get();
     reinterpret_cast<Val*>(ctx->_storage)->v = POISON;
+    // wbase = n: the waiter counter starts n registrations before its carry into READY_MASK (as after 2^31 - n
+    // slow-path get / wait_for calls, e.g. timed-out polls, on this future)
+    if (p.get("wbase", 0) > 0) ctx->_futex.value().store(0x80000000u - (uint32_t)p.get("wbase", 0), std::memory_order_relaxed);
     vsched::name_loc(&ctx->_futex, sizeof(ctx->_futex), "futex");
     vsched::name_loc(&ctx->_head, sizeof(ctx->_head), "head");
     vrun::begin();
@@ -203,7 +208,7 @@ void scenario_fut(const vrun::Params& p) {
 }
 
 struct Reg {
-  Reg() { vrun::add("fut", scenario_fut, "mode=fut,count=1,prog=sv7_get"); }
+  Reg() { vrun::add("fut", scenario_fut, "mode=fut,count=1,wbase=0,prog=sv7_get"); }
 } reg;
 
 } // namespace
